@@ -40,6 +40,10 @@ type Case struct {
 	Valid   bool                     `json:"valid"`
 	IsRoot  bool                     `json:"isroot"`
 	Expect  map[string]string        `json:"expect"`
+	// FilterNotHides: the negated filter view hides the object at the cleaned path
+	FilterNotHides bool `json:"filterNotHides"`
+	// PrefixExpect: what a nested view whose prefix is this raw path must do with every call
+	PrefixExpect string `json:"prefixExpect"`
 	Archive map[string]archiveExpect `json:"archive"`
 }
 
@@ -50,7 +54,7 @@ type input struct {
 	Corrupt bool `json:"corrupt"`
 }
 
-var allKinds = []string{"os", "os-map", "os-map-map", "os-chain", "os-filter", "mem", "mem-map", "mem-map-map", "mem-chain", "mem-filter"}
+var allKinds = []string{"os", "os-map", "os-map-map", "os-chain", "os-filter", "os-filternot", "os-pfxmap", "os-pfxmaprw", "mem", "mem-map", "mem-map-map", "mem-chain", "mem-filter", "mem-filternot", "mem-pfxmap", "mem-pfxmaprw"}
 var ops = []string{"get", "stat", "walk", "put", "putatomic", "delete", "deleteall"}
 var objNames = []string{"a/b", "b", "a.b", "..a", "s.txt"}
 
@@ -246,9 +250,20 @@ type view struct {
 	wb      storage.WriteBucket
 	root    []string // location components of the view root in the universe
 	visible []string // location components under which objects are visible (filter), nil = root
+	// filterNot: the view hides a.b and everything under a/ (negated matcher)
+	filterNot bool
 }
 
-func (u *universe) view(kind string) (*view, error) {
+// hiddenByFilterNot mirrors FilterNotHides of the specification for the clean paths a walk reports.
+func hiddenByFilterNot(comps []string) bool {
+	return (len(comps) == 1 && comps[0] == "a.b") || (len(comps) > 1 && comps[0] == "a")
+}
+
+func (u *universe) view(kind string) (*view, error) { return u.viewWithPrefix(kind, "", nil) }
+
+// viewWithPrefix builds the view; for the pfxmap kinds the view is nested in the view rooted at m with the given
+// (untrusted) prefix, whose cleaned components are cleanPrefix.
+func (u *universe) viewWithPrefix(kind string, prefix string, cleanPrefix []string) (*view, error) {
 	v := &view{kind: kind}
 	var base storage.ReadWriteBucket
 	if u.disk {
@@ -284,6 +299,18 @@ func (u *universe) view(kind string) (*view, error) {
 	case "filter":
 		v.rb = storage.FilterReadBucket(base, storage.MatchPathContained("m"))
 		v.visible = append(append([]string{}, v.root...), "m")
+	case "filternot":
+		v.rb = storage.FilterReadBucket(base, storage.MatchNot(storage.MatchOr(storage.MatchPathEqual("a.b"), storage.MatchPathContained("a"))))
+		v.filterNot = true
+	case "pfxmap":
+		// read and write views built separately (MapReadBucket / MapWriteBucket), each nested in its own inner view
+		v.rb = storage.MapReadBucket(storage.MapReadBucket(base, storage.MapOnPrefix("m")), storage.MapOnPrefix(prefix))
+		v.wb = storage.MapWriteBucket(storage.MapWriteBucket(base, storage.MapOnPrefix("m")), storage.MapOnPrefix(prefix))
+		v.root = append(append(v.root, "m"), cleanPrefix...)
+	case "pfxmaprw":
+		b := storage.MapReadWriteBucket(storage.MapReadWriteBucket(base, storage.MapOnPrefix("m")), storage.MapOnPrefix(prefix))
+		v.rb, v.wb = b, b
+		v.root = append(append(v.root, "m"), cleanPrefix...)
 	default:
 		return nil, fmt.Errorf("unknown kind %q", kind)
 	}
@@ -409,8 +436,25 @@ func specOp(op string) string {
 
 func checkCase(ctx context.Context, u *universe, kind string, c Case, res *reg.Result) error {
 	raw := strings.Join(c.Raw, "/")
+	prefix, cleanPrefix := "", []string(nil)
+	if strings.Contains(kind, "-pfxmap") {
+		// the raw path is the prefix of the nested view; the call itself is benign
+		if c.PrefixExpect == "" {
+			return nil
+		}
+		prefix = raw
+		if c.PrefixExpect == "act" {
+			cleanPrefix = c.Clean
+		}
+		exp := map[string]string{}
+		for _, o := range []string{"get", "stat", "walk", "put", "delete", "deleteall"} {
+			exp[o] = c.PrefixExpect
+		}
+		c = Case{Raw: []string{"b"}, Clean: []string{"b"}, Valid: true, Expect: exp}
+		raw = "b"
+	}
 	for _, op := range ops {
-		v, err := u.view(kind)
+		v, err := u.viewWithPrefix(kind, prefix, cleanPrefix)
 		if err != nil {
 			return err
 		}
@@ -431,6 +475,10 @@ func checkCase(ctx context.Context, u *universe, kind string, c Case, res *reg.R
 		exp := c.Expect[specOp(op)]
 		cs := cleanStr(c)
 		caseInfo := map[string]any{"kind": kind, "op": op, "raw": raw, "clean": cs, "expect": exp}
+		if prefix != "" {
+			caseInfo["view_prefix"] = prefix
+			cs = "b/prefix=" + prefix
+		}
 		target := append(append([]string{}, v.root...), c.Clean...)
 		visibleRoot := v.root
 		if v.visible != nil {
@@ -469,6 +517,10 @@ func checkCase(ctx context.Context, u *universe, kind string, c Case, res *reg.R
 			case "get":
 				if r.err == nil {
 					want, exists := u.pristine[loc(target)]
+					if v.filterNot && c.FilterNotHides {
+						res.Violate(fmt.Sprintf("read-hidden/%s/%s/clean=%s", kind, op, cs), caseInfo,
+							"get(%q) on %s returned %q: the filter hides the object at %s under every spelling", raw, kind, r.data, loc(target))
+					}
 					if !exists || want != string(r.data) || !hasPrefix(target, visibleRoot) {
 						res.Violate(fmt.Sprintf("read-outside/%s/%s/clean=%s", kind, op, cs), caseInfo,
 							"get(%q) on %s returned %q, the object at %s is %q (exists=%v)", raw, kind, r.data, loc(target), want, exists)
@@ -476,6 +528,10 @@ func checkCase(ctx context.Context, u *universe, kind string, c Case, res *reg.R
 				}
 			case "stat":
 				if r.err == nil {
+					if v.filterNot && c.FilterNotHides {
+						res.Violate(fmt.Sprintf("read-hidden/%s/%s/clean=%s", kind, op, cs), caseInfo,
+							"stat(%q) on %s succeeded: the filter hides the object at %s under every spelling", raw, kind, loc(target))
+					}
 					if _, exists := u.pristine[loc(target)]; !exists || !hasPrefix(target, visibleRoot) {
 						res.Violate(fmt.Sprintf("read-outside/%s/%s/clean=%s", kind, op, cs), caseInfo,
 							"stat(%q) on %s succeeded but there is no visible object at %s", raw, kind, loc(target))
@@ -487,7 +543,7 @@ func checkCase(ctx context.Context, u *universe, kind string, c Case, res *reg.R
 					qc := locComps(q)
 					full := append(append([]string{}, v.root...), qc...)
 					_, exists := u.pristine[loc(full)]
-					bad := !exists || !hasPrefix(full, target) || !hasPrefix(full, visibleRoot) || seen[q]
+					bad := !exists || !hasPrefix(full, target) || !hasPrefix(full, visibleRoot) || seen[q] || (v.filterNot && hiddenByFilterNot(qc))
 					for _, comp := range qc {
 						if comp == ".." || comp == "." || comp == "" {
 							bad = true
